@@ -239,6 +239,28 @@ def run(ctx):
                        f'target counts are obtained with the truncating {short(t, 60)} from float '
                        f'shares x channels (1.9999999 -> 1): a channel is left without a '
                        f'precision', where(ra, e.node))
+    # ---- R20e: no pass of the reassignment works on a stale view of the assignment -------
+    from ..stale import stale_snapshots
+    control = ast.parse('def f(a):\n    free = (a == -1).nonzero()\n    for p in range(3):\n'
+                        '        a[free[:1]] = p\n').body[0]
+    if len(stale_snapshots(control)[0]) != 1:
+        raise AnalysisError('R20e: positive control not recognised')
+    n_loops = 0
+    for f in (ra, fn):
+        found, nl = stale_snapshots(f.node)
+        n_loops += nl
+        for loop, u, X, d, m in found:
+            ctx.ob('R20e', f'{f.name}: {u} is a snapshot of {X} reused across iterations', False,
+                   f'"{ast.unparse(d)[:90]}" is computed once before the loop at line '
+                   f'{loop.lineno}, but the loop rewrites {X} ("{ast.unparse(m)[:70]}") and reads '
+                   f'{u} again in later iterations: channels already handed out are still '
+                   f'treated as available, so a channel can be given two precisions and a '
+                   f'target count is missed', f'{f.module.relpath}:{d.lineno}')
+        if not found:
+            ctx.ob('R20e', f'{f.name}: views of rewritten state are recomputed per iteration',
+                   True, f'{nl} loops: no value computed from an object before a loop is reused '
+                   f'in the loop that rewrites the object', where(f))
+    ctx.floor('R20e', 'loops examined', n_loops, 6)
     ctx.assume('shares are multiples of 1/C represented in float32; argsort returns a permutation')
     ctx.note('not decided: that _reassign_precisions meets every count for every score matrix '
              '(greedy algorithm correctness)')
